@@ -22,7 +22,19 @@ Oracles (from the property text), evaluated on the recorded event history
 * no-idle-exit         — (liveness, from the ``serve_unix`` docstring, not from the property text) the loop is
                          still accepting long after idle_timeout + grace with zero connections.
 
-Part (b) — the launcher — is in ``run_launcher`` (see the module RULE / ASSUMPTIONS).
+Part (b) — the launcher (``run_launcher``, one run in three).  2-3 launcher *processes* (simulated threads with
+their own pid) call the REAL ``vgi_rpc.launcher.launch`` (hence ``_probe``, ``_spawn_worker``, ``gc_state_dir``) for
+the same / for two different worker commands, once or twice each, at tape-chosen times (early, around the worker's
+start-up grace, around "previous client left + idle_timeout"); each spawned worker *process* is a simulated thread that
+runs the REAL ``serve_unix(threaded=True, idle_timeout=...)`` — bind, listen, ``_serve_socket_threaded``, unlink — over
+a simulated filesystem / AF_UNIX namespace (``sims/s5_launcher.py``).  Faults: slow worker start, stdout noise, worker
+exiting before readiness, lock-wait timeout, threads descheduled at connect / listener close.
+
+* spawn-while-alive    — ``Popen`` for a command while a worker of the same command is alive and listening;
+* two-live-workers     — a worker starts listening while another worker of the same command is listening;
+* returned-dead-path   — nothing listens on the path ``launch()`` returns, at the return event, and nothing did at any
+                         moment of that launch (a worker that left between the launcher's successful probe and the
+                         return is counted as probe ``worker_left_between_probe_and_return``: no probe can exclude it).
 """
 
 from __future__ import annotations
@@ -39,8 +51,8 @@ from vgi_rpc.rpc._transport import UnixTransport
 
 PROPERTY = "C33"
 LEVEL = "exploration"
-QUICK_RUNS = 2000
-THOROUGH_RUNS = 200_000
+QUICK_RUNS = 1200
+THOROUGH_RUNS = 80_000
 QUICK_BUDGET_S = 100
 THOROUGH_BUDGET_S = 1500
 RULE = (
@@ -49,13 +61,19 @@ RULE = (
     "-0.6..+1.0 s, 0-2 unary calls, a hold time) x a schedule (pre-emption inside _transport.py, voluntary yields "
     "right after accept(), at serve() entry/exit and before the timer callback, virtual-time leaps); a run is "
     "non-trivial when a timer fired or a pre-emption / clock jump happened; distinct = distinct (scenario, "
-    "schedule hash)"
+    "schedule hash).  part (b) (one run in three): (idle_timeout, 2-3 launchers x 1-2 launch() calls with anchor/offset "
+    "times, same or two command hashes, lock timeout 30/2 s, optional client connect+ping+hold, per-worker start delay / "
+    "noise / early exit) x schedule (pre-emption in launcher.py and _transport.py, yields at connect and listener close)"
 )
 COMPONENTS = {
     "real": ["vgi_rpc.rpc._transport._serve_socket_threaded", "UnixTransport", "_ExactWriter/_ClampedRaw",
-             "RpcServer.serve", "vgi_rpc.rpc._client._RpcProxy (unary)", "pyarrow IPC"],
+             "RpcServer.serve", "vgi_rpc.rpc._client._RpcProxy (unary)", "pyarrow IPC",
+             "(b) vgi_rpc.launcher.launch/_probe/_spawn_worker/_write_meta/gc_state_dir/compute_hash",
+             "(b) vgi_rpc.rpc._transport.serve_unix + _check_no_existing_listener/_unlink_*"],
     "stub": ["listening socket / connections -> dst.chan.FakeListener/FakeSocket", "threading -> dst.sched.SimThreading "
-             "(Lock, Semaphore, Thread, Timer on the virtual clock)"],
+             "(Lock, Semaphore, Thread, Timer on the virtual clock)",
+             "(b) filelock.FileLock -> per-path simulated advisory lock with timeout; pathlib.Path/os/socket/subprocess/time "
+             "-> facades over a simulated filesystem and process table (sims/s5_launcher.py)"],
 }
 ASSUMPTIONS = [
     "a connection counts as 'being served' from the return of accept() to the return of server.serve(); the "
@@ -64,7 +82,10 @@ ASSUMPTIONS = [
     "connections still in the listen backlog when the loop leaves are not 'accepted' and are outside the oracle",
     "the process exit that normally follows serve_unix() returning is not modelled: handler threads keep running",
     "no-idle-exit is a liveness extension taken from the serve_unix docstring (sensitivity to lost count updates)",
-    "part (b) (launcher) is not built",
+    "(b) a worker is 'alive' while its listening socket is open; launcher process death (kernel releasing the flock) "
+    "and worker start-up longer than worker_startup_timeout are not generated",
+    "(b) 'accepting at that moment' is judged at the return event, but a worker that was observed listening by this "
+    "launch() and left before it returned is not a violation (inherent to any probe)",
 ]
 
 IDLES = [1.0, 0.5, 0.3, 2.0, 1.7, 5.0, 61.0]
@@ -660,9 +681,12 @@ def run_launcher(ctx: RunCtx) -> None:
             h._t = t
             h.join()
         for p in list(w.workers):
-            if not p.exited.wait(timeout=1500.0):
-                ch.probe("worker_forced_down_at_end")
-                p.terminate()
+            # every worker leaves by its own idle timer; the loop only guards against a worker that never does
+            while not p.exited.wait(timeout=500.0):
+                if sched.now > 5000.0:
+                    ch.probe("worker_forced_down_at_end")
+                    p.terminate()
+                    break
 
     saved_l = {n: getattr(L, n) for n in ("FileLock", "Path", "os", "socket", "subprocess", "time", "threading")}
     saved_t = {n: getattr(T, n) for n in ("os", "socket", "threading")}
